@@ -606,6 +606,14 @@ class _Graph:
         ns[f"RK{n}"] = type(f"RK{n}", (), {"__module__": "vfworld"})
         ns["KTOP"] = self.classes[len(self.classes) - 1]()
         ov.register(self.make_fn(f"rk{n}", f"def rk{n}(x: RK{n}):\n    return recurse(KTOP)\n"))
+        # two-argument recursion nested in an argument of another recursion, on one source line:
+        # recurse(a, recurse(b, c)) must be f(a, f(b, c)) for the function the call came through
+        if "Tag" not in ns:
+            ns["Tag"] = type("Tag", (), {"__module__": "vfworld", "__init__": lambda self_, t: setattr(self_, "t", t)})
+            ns["TA"], ns["TB"], ns["TC"] = ns["Tag"]("A"), ns["Tag"]("B"), ns["Tag"]("C")
+        ns[f"RN{n}"] = type(f"RN{n}", (), {"__module__": "vfworld"})
+        ov.register(self.make_fn("f", f"def f(x: Tag, y: object):\n    return [{n}, x.t, y.t if isinstance(y, Tag) else y]\n"))
+        ov.register(self.make_fn(f"rn{n}", f"def rn{n}(x: RN{n}):\n    return recurse(TA, recurse(TB, TC))\n"))
 
     def ancestors(self, n):
         out = set()
@@ -626,6 +634,20 @@ class _Graph:
         via = {"kind": kind, "chain": list(self.log)}
         direct = self.probe(self.nodes[n], len(self.classes) - 1)
         return {"op": "rprobe2", "n": n, "via": f"RK{a}", "rec": via, "direct": direct}
+
+    def rprobe3(self, n, a):
+        def run(fn):
+            try:
+                return {"kind": "run", "ret": json.dumps(fn())}
+            except BaseException as exc:  # noqa
+                exc.__traceback__ = None
+                return {"kind": "error", "ret": type(exc).__name__}
+
+        f = self.nodes[n]
+        ns = self.ns
+        via = run(lambda: f(ns[f"RN{a}"]()))
+        direct = run(lambda: f(ns["TA"], f(ns["TB"], ns["TC"])))
+        return {"op": "rprobe3", "n": n, "via": f"RN{a}", "rec": via, "direct": direct}
 
     def rprobe(self, n, a):
         try:
@@ -698,6 +720,7 @@ def graph_replay(jobs):
                     if job.get("recurse", True):
                         for a in sorted(g.ancestors(k) | {k}):
                             steps.append(g.rprobe(k, a))
+                            steps.append(g.rprobe3(k, a))
                             if g.eff(k):
                                 steps.append(g.rprobe2(k, a))
                     if not g.eff(k):
@@ -1144,6 +1167,7 @@ def _dep_call(vw, ov, methods, cspec):
     call = {"pos": [deprt.arg_record(n) for n in names], "kwn": list(kwspec), "kwa": [deprt.arg_record(n) for n in kwspec.values()]}
     del vw.log[:]
     del vw.predlog[:]
+    vw.budget[0] = 2
     obs = {"resolve": {"kind": "skip", "m": ""}}
     try:
         ov(*args, **kwargs)
@@ -1154,6 +1178,10 @@ def _dep_call(vw, ov, methods, cspec):
         e.__traceback__ = None
     ent = []
     for j, (mid, a, kws) in enumerate(vw.log):
+        if mid == ">next_with":
+            # the body entered just before delegates with other values
+            ent[-1]["next"] = {"has": True, "call": {"pos": [deprt.arg_record(n) for n in a], "kwn": [], "kwa": []}}
+            continue
         m = next(x for x in methods if x["id"] == mid)
         nxt = m.get("body") == "next"
         kws = {k: v for k, v in kws.items() if v is not deprt.KWDFLT}
@@ -1249,6 +1277,8 @@ def value_cases(jobs):
     for job in jobs:
         t = job["t"]
         try:
+            for tw in valuniv.twins(t["py"]):
+                normalize_type(tw, None)
             RT = valuniv.real(t["py"])
             NT = normalize_type(RT, None)
         except Exception as e:
